@@ -28,7 +28,8 @@ RULE = (
     "position or at the return value; typeguard for all, beartype for class-only annotations; both values "
     "of the remove-typechecker-stack switch; observed: exception class, stage sentence, blamed parameter, "
     "name=value lines, __cause__; directed: misuse ({name} parts naming no argument, unbound symbolic names, '?' outside a structured "
-    "PyTree) in parameter and return annotations, and one identifier used both as plain axis and as multi-axis name; non-trivial = a TypeCheckError or AnnotationError was raised after at "
+    "PyTree) in parameter and return annotations, one identifier used both as plain axis and as multi-axis name, and structure names bound by PyTrees "
+    "whose leaf type is a union some leaves of which need the second alternative; non-trivial = a TypeCheckError or AnnotationError was raised after at "
     "least one accepted parameter; distinct by call"
 )
 TRUSTED = [
@@ -214,6 +215,31 @@ def nested_cases():
     ]
 
 
+def structure_union_cases():
+    """a structure name bound by a PyTree whose leaf type is a union: leaves that need the second alternative make the
+    first one fail at the shape stage (a rollback swaps the dictionaries) — the name must be in force afterwards, be
+    listed by a later error, and make a later parameter / the return value of another structure an error"""
+    mk = lambda params, ret=None: {"op": "call", "kind": "new", "params": params, "ret": ret, "bindok": True, "notc": False, "body": [], "exit": "ret"}  # noqa: E731
+    U = {"t": "union", "ts": [arr_type("a"), arr_type("a b")]}
+    PU = {"t": "pytree", "l": U, "s": "T"}
+    PI = {"t": "pytree", "l": gen_prog.INT, "s": "T"}
+    two = {"t": "dict", "keys": ["p", "q"], "vals": [arr_val([3]), arr_val([3, 4])]}
+    first_only = {"t": "dict", "keys": ["p", "q"], "vals": [arr_val([3]), arr_val([3])]}
+    second_only = {"t": "tuple", "xs": [arr_val([3, 4]), arr_val([3, 4])]}
+    ints2 = {"t": "dict", "keys": ["p", "q"], "vals": [gen_prog.ival(1), gen_prog.ival(2)]}
+    ints3 = {"t": "tuple", "xs": [gen_prog.ival(1), gen_prog.ival(2), gen_prog.ival(3)]}
+    out = []
+    for tree in (two, first_only, second_only):
+        same = ints2 if tree["t"] == "dict" else {"t": "tuple", "xs": [gen_prog.ival(1), gen_prog.ival(2)]}
+        out.append(mk([dict(name="x", ty=PU, val=tree), dict(name="y", ty=gen_prog.INT, val=gen_prog.sval("no"))]))
+        out.append(mk([dict(name="x", ty=PU, val=tree), dict(name="y", ty=PI, val=ints3)]))
+        out.append(mk([dict(name="x", ty=PU, val=tree), dict(name="y", ty=PI, val=same)]))
+        out.append(mk([dict(name="x", ty=PU, val=tree)], {"ty": PI, "val": ints3}))
+        out.append(mk([dict(name="x", ty=PU, val=tree)], {"ty": PI, "val": same}))
+        out.append(mk([dict(name="x", ty=PU, val=tree), dict(name="y", ty={"t": "pytree", "l": gen_prog.INT, "s": "T T"}, val={"t": tree["t"], **({"keys": ["p", "q"], "vals": [same, same]} if tree["t"] == "dict" else {"xs": [same, same]})})]))
+    return out
+
+
 def after_misuse_cases(out):
     """misuse surfaces as AnnotationError — and afterwards violated annotations are still reported: each scenario in a fresh
     thread (ill-typed calls before, one misuse that raises from inside a check, the same ill-typed calls after)"""
@@ -351,6 +377,8 @@ def run(tier, seed, out, drv, facts):
     for call in same_name_cases():
         for rs in (False, True):
             run_call(out, drv, facts, call, "typeguard", rs, rng, "same-name")
+    for call in structure_union_cases():
+        run_call(out, drv, facts, call, "typeguard", False, rng, "structure-union")
     n = 40000 if thorough else 400
     for i in range(n):
         call, class_only = gen_call(rng, thorough)
